@@ -218,24 +218,76 @@ def run(chk):
                 w3 = "row bypasses the checks with only part of the localhost gate (eq=%s flag=%s)" % (eq, flag)
             if local and arm != "Web":
                 pass
-            # R4
+            # R4: host == rp, or host = rest ++ rp with the cut at a label separator.  The row's conditions on the remainder are
+            # brought to a boolean normal form and must imply  rest.is_empty() ∨ rest.ends_with('.') [∨ rp.starts_with('.')]
+            # over exactly those atoms (truth table); the suffix relation must be host-stripped-by-rp, not the reverse.
             if rp_supplied:
                 n4 += 1
                 host_side = (lambda x: isinstance(x, tuple) and x and x[0] == "call" and names.is_(x[1], "Url::domain")) if arm == "Web" else (lambda x: isinstance(x, tuple) and len(x) == 3 and x[0] == "field" and x[2] == "host")
-                rel = [(t, labs) for t, labs, fn, w in o.conds if flow.term_contains(t, lambda x: x == rp_term) and flow.term_contains(t, host_side)]
-                if not rel:
+                is_strip = lambda x: is_callee(x, "str::strip_suffix") and flow.term_contains(x[2][0], host_side) and not flow.term_contains(x[2][0], lambda y: y == rp_term) and x[2][1] == rp_term
+                strips = [x for t, labs, fn, w in o.conds for x in (flow._subjects(flow.presence_test(t, labs)[0], True) if flow.presence_test(t, labs) else []) if flow.asserts_ok(t, labs, is_strip) and is_strip(x)]
+                equal = any((flow.eq_test(t, labs) or (None, None))[1] is True and rp_term in flow.eq_test(t, labs)[0] and any(flow.term_contains(y, host_side) for y in flow.eq_test(t, labs)[0]) for t, labs, fn, w in o.conds)
+                if equal:
+                    w4 = w4 or "host == rp id"
+                elif not strips:
                     r4 = False
-                    w4 = "row with a supplied RP ID at %s has no test relating it to the origin host" % site
+                    rel = [flow.term_str(t)[:100] for t, labs, fn, w in o.conds if flow.term_contains(t, lambda x: x == rp_term)]
+                    w4 = "row with a supplied RP ID at %s: no test that the origin host ends with the RP ID (strip_suffix(host, rp_id) / equality) — found %s" % (site, rel)
                 else:
-                    ev = set()
-                    for t, labs in rel:
-                        ev |= {c for c in consts_of_term(p, t) if c in SEPARATORS}
-                    if not ev:
+                    from . import quant
+                    F = quant.Formulas(N)
+                    rest = ("payload", strips[0])
+                    parts = []
+                    for t, labs, fn, w in o.conds:
+                        if flow.term_contains(t, lambda x: x == rest) or (flow.term_contains(t, lambda x: is_callee(x, "str::starts_with")) and flow.term_contains(t, lambda x: x == rp_term)):
+                            parts.append(F.of_edge(t, labs))
+                    fm = quant.f_and(*parts) if parts else ("true",)
+                    atoms = {}
+
+                    def leaf(f):
+                        if f[0] in ("or", "and"):
+                            return all(leaf(x) for x in f[1])
+                        if f[0] == "not":
+                            return leaf(f[1])
+                        if f[0] in ("true", "false"):
+                            return True
+                        k = None
+                        if f[0] == "atom" and isinstance(f[1], tuple) and len(f[1]) == 4 and f[1][0] == "call":
+                            cal, args = f[1][1], f[1][2]
+                            dot = len(args) > 1 and args[1] in (("const", 46), ("const", "."), ("const", b"."))
+                            if cal.endswith("is_empty") and args[0] == rest:
+                                k = "E"
+                            elif names.is_(cal, "str::ends_with") and args[0] == rest and dot:
+                                k = "D"
+                            elif names.is_(cal, "str::starts_with") and args[0] == rp_term and dot:
+                                k = "S"
+                        atoms[f] = k
+                        return k is not None
+                    known = leaf(fm)
+
+                    def ev(f, env):
+                        if f[0] == "true":
+                            return True
+                        if f[0] == "false":
+                            return False
+                        if f[0] == "not":
+                            return not ev(f[1], env)
+                        if f[0] == "or":
+                            return any(ev(x, env) for x in f[1])
+                        if f[0] == "and":
+                            return all(ev(x, env) for x in f[1])
+                        return env[atoms[f]]
+                    if not known or not parts:
                         r4 = False
-                        t = rel[0][0]
-                        w4 = ("suffix test %s has no separator evidence: a character-level suffix is accepted (origin https://evilexample.com with rpId example.com)" % flow.term_str(t))
+                        w4 = "suffix test at %s: the remainder of the host is tested by %s — not a label-boundary test (is_empty / ends_with('.')): e.g. origin https://a.evilexample.com with rpId example.com" % (site, [str(k)[:110] for k, v in atoms.items() if v is None] or "nothing")
                     else:
-                        w4 = w4 or "suffix test %s carries separator evidence %s" % (flow.term_str(rel[0][0])[:120], sorted(map(str, ev)))
+                        import itertools
+                        sound = all((not ev(fm, dict(E=E, D=D, S=S))) or (E or D or S) for E, D, S in itertools.product((False, True), repeat=3))
+                        if not sound:
+                            r4 = False
+                            w4 = "suffix test at %s accepts a remainder that is neither empty nor ending with '.'" % site
+                        else:
+                            w4 = w4 or "host = rest ++ rp id with rest empty or ending in '.' (or the rp id starting with '.')"
             # R6c
             if payload is not None:
                 okp = payload == rp_term or (arm == "Web" and flow.is_payload_of(payload, lambda x: is_callee(x, "Url::domain"))) or (arm != "Web" and isinstance(payload, tuple) and payload[0] == "field" and payload[2] == "host")
